@@ -167,6 +167,10 @@ type netw struct {
 	nDup     int
 	nHeld    int
 	directed bool
+	maxRound int
+	nLock    int
+	nRelock  int
+	nUnlock  int
 }
 
 type sentMsg struct {
@@ -251,7 +255,7 @@ func (nw *netw) close() {
 }
 
 func (nw *netw) note(format string, a ...interface{}) {
-	if len(nw.notes) < 200 {
+	if len(nw.notes) < 400 {
 		nw.notes = append(nw.notes, fmt.Sprintf("[%.2fs] ", time.Since(nw.t0).Seconds())+fmt.Sprintf(format, a...))
 	}
 }
@@ -551,6 +555,20 @@ func (nw *netw) nodeEvent(r *rnode, ev *tevent, forceCrash *crashPlan, f func() 
 	}
 	ev.Outs = touts
 	ev.Post = nw.obs(r, st, h)
+	if int(st.Round) > nw.maxRound {
+		nw.maxRound = int(st.Round)
+	}
+	if prev := r.prevLock; prev != [2]string{fmt.Sprint(st.LockedRound), st.LockedID} {
+		switch {
+		case st.LockedID == "":
+			nw.nUnlock++
+		case prev[1] == st.LockedID:
+			nw.nRelock++
+		default:
+			nw.nLock++
+		}
+		r.prevLock = [2]string{fmt.Sprint(st.LockedRound), st.LockedID}
+	}
 	if ev.Post.Step == stepNewRound && ev.Post.Timer {
 		ev.Delay = true
 	}
